@@ -5,6 +5,8 @@ import JunoModel.C17.Model
 * `new <guard 0|1> none | new <guard> <l2> <hash> <root>`  fresh client, stored head as given → `ok`
 * `upd <l2> <hash> <root> <l1> <removed 0|1>`             a value on the update channel → `ok`
 * `tick <fin>`                                            poll + `setL1Head` → `head=<h> note=<h>`
+* `fwd <blockNumber> <blockHash> <globalRoot> <l1> <removed>`  raw L1 log through the geth layer
+                                                          → `su <l2> <hash> <root> <l1> <removed>`
 * `head`                                                   → `head=<h>` (stored head, no transition)
 * `suberr` | `resub <0|1>` | `finerr`                     → `ok` (identity transitions)
 * `hist <l2> <hash> <root> <l1> <removed>` / `histclear`  provider log history for catch-up → `ok`
@@ -62,6 +64,13 @@ def dstep (s : DState) (line : String) : DState × String :=
       let r := setL1Head s.guard s.st f
       ({ s with st := r.1 }, "head=" ++ fmtHead r.1.head ++ " note=" ++ fmtHead r.2)
     | none => (s, "bad-op")
+  | ["fwd", a, b, c, d, e] =>
+    match hexToNat? a, hexToNat? b, hexToNat? c, hexToNat? d, bool? e with
+    | some n, some h, some r, some l1, some rm =>
+      let u := decodeLog ⟨r, n, h, l1, rm⟩
+      (s, "su " ++ natToHex u.l2 ++ " " ++ natToHex u.hash ++ " " ++ natToHex u.root ++ " " ++
+        natToHex u.l1 ++ " " ++ (if u.removed then "1" else "0"))
+    | _, _, _, _, _ => (s, "bad-op")
   | ["head"] => (s, "head=" ++ fmtHead s.st.head)
   | ["suberr"] => ({ s with st := step s.guard s.st .subErr }, "ok")
   | ["finerr"] => ({ s with st := step s.guard s.st .finErr }, "ok")
